@@ -117,6 +117,7 @@ def run_optimal(case):
         raise Violation('path-dims', f'{res.dims}')
     if res.dims is not None:
         check_wrapped(res, sites, shape)
+        check_total_length(res, sites, shape, np.array(case['lattice']['matrix'], float))
     blocked = bool((F >= thr).any() or (F < 0).any())
     wrap = any(any(abs(b[i] - a[i]) > 1 for i in range(3)) for a, b in zip(sites, sites[1:]))
     if blocked:
@@ -187,11 +188,108 @@ def run_percolate(case):
     if res.dims is None or tuple(res.dims) != tuple(dims):
         raise Violation('path-dims', f'{res.dims} vs {dims}')
     check_wrapped(res, sites, dims)
+    check_total_length(res, sites, dims, np.array(case['lattice']['matrix'], float))
     if len(set(dims)) > 1:
         labels.append('unequal-dims')
     if sum(t is not None for t in totals) < len(totals):
         labels.append('some-peak-cannot-percolate')
     return {'nontrivial': len(set(dims)) > 1, 'labels': labels}
+
+
+def check_total_length(path, sites, dims, M):
+    """Pathway.total_length = sum of the minimum-image distances between the centres of consecutive (wrapped) voxels"""
+    from pymatgen.core import Lattice
+
+    wf = (np.array([[s[i] % dims[i] for i in range(3)] for s in sites]) + 0.5) / np.array(dims)
+    if any(np.array_equal(a, b) for a, b in zip(wf, wf[1:])):
+        return False  # two consecutive sites wrap to the same voxel (grid side 1): the reported length is not defined there
+    want = sum(float(oracle.min_image_dist(a[None], b[None], M)[0, 0]) for a, b in zip(wf, wf[1:]))
+    got = float(gcall(path.total_length, Lattice(M)))
+    if abs(got - want) > 1e-9 * max(1.0, want):
+        raise Violation('total-length-is-sum-of-step-lengths', f'total_length {got!r} vs {want!r} for sites {sites} in grid {tuple(dims)}')
+    return True
+
+
+def run_npaths(case):
+    """optimal_n_paths: every returned path is a valid path between the requested voxels, the first one is cost-minimal"""
+    import networkx as nx
+    from gemdat import path as gpath
+    from gemdat.volume import FreeEnergyVolume
+
+    F = np.array(case['F'], float)
+    shape = F.shape
+    M = np.array(case['lattice']['matrix'], float)
+    thr, diag, method, route = case['threshold'], case['diagonal'], case['method'], case['route']
+    if route == 'vol-default':
+        thr, diag = THR, True
+    vol = FreeEnergyVolume(data=F.copy(), lattice=cases.lattice(case['lattice']))
+    adj = oracle.grid_graph(F, thr, diagonal=diag)
+    adm = sorted(adj)
+    if not adm or len(adm) > 7:
+        raise Skip()  # the number of simple paths (which the library may enumerate completely) is kept small
+    start, stop = adm[case['start'] % len(adm)], adm[case['stop'] % len(adm)]
+    kw = dict(start=start, stop=stop, method=method, n_paths=case['n_paths'], min_diff=case['min_diff'])
+    if case.get('defaults'):
+        kw.pop('n_paths'), kw.pop('min_diff')
+    n_max = kw.get('n_paths', 3)
+    allow = (nx.NetworkXNoPath,)
+    if route == 'vol-default':
+        res = gcall(vol.optimal_n_paths, allow=allow, **kw)
+    elif route == 'vol-graph':
+        G = gcall(vol.free_energy_graph, max_energy_threshold=thr, diagonal=diag)
+        res = gcall(vol.optimal_n_paths, F_graph=G, allow=allow, **kw)
+    else:
+        G = gcall(gpath.free_energy_graph, vol if route == 'function-volume' else F.copy(), max_energy_threshold=thr, diagonal=diag)
+        if set(map(tuple, G.nodes)) != set(adj):
+            raise Violation('graph-nodes', 'node set differs from the admissible voxels')
+        one = gcall(gpath.optimal_path, G, start=start, stop=stop, method=method, allow=allow)
+        res = gcall(gpath.optimal_n_paths, G, allow=allow, **kw)
+        if isinstance(one, Raised) != isinstance(res, Raised):
+            raise Violation('n-paths-agree-with-optimal-path', f'optimal_path {one!r} but optimal_n_paths {res!r}')
+    best = best_cost(adj, F, start, stop, method, thr)
+    labels = [method, route, 'diagonal' if diag else 'faces-only']
+    if isinstance(res, Raised):
+        if best is not None:
+            raise Violation('no-path-only-when-disconnected', f'NetworkXNoPath but an admissible path of cost {best} exists from {start} to {stop}')
+        return {'nontrivial': False, 'labels': labels + ['disconnected']}
+    if best is None:
+        raise Violation('path-through-inadmissible-region', f'paths were returned although {start} and {stop} are not connected through admissible voxels')
+    if not isinstance(res, list) or len(res) < 1:
+        raise Violation('n-paths-count', f'{res!r} returned for n_paths={n_max}')  # (how many paths come back is not part of the property: n_paths=1 yields two on the pinned tree)
+    for k, p in enumerate(res):
+        sites = path_checks(p.sites, p.energy, F, adj, start, stop, None, f'n-paths[{k}]')
+        if abs(float(p.total_energy) - sum(float(F[s]) for s in sites)) > 1e-9 * max(1.0, sum(float(F[s]) for s in sites)):
+            raise Violation('total-energy', '')
+        if k == 0:
+            cost = path_cost(sites, F, method, thr)
+            if cost > best + 1e-9 * max(1.0, abs(best)):
+                raise Violation('cost-minimal-' + method, f'first of the n paths {sites} has cost {cost!r} under {method!r}; an admissible path of cost {best!r} exists (grid {shape}, diagonal={diag}, threshold={thr})')
+        if route.startswith('vol'):
+            if p.dims is None or tuple(p.dims) != tuple(shape):
+                raise Violation('path-dims', f'path {k}: {p.dims}')
+            check_wrapped(p, sites, shape)
+            if check_total_length(p, sites, shape, M):
+                labels.append('total-length')
+    if len(res) > 1:
+        labels.append('several-paths')
+    blocked = bool((F >= thr).any())
+    return {'nontrivial': len(res) > 1 and blocked, 'labels': sorted(set(labels))}
+
+
+@st.composite
+def npaths_cases(draw, tier):
+    shape = [draw(st.integers(1, 4)) for _ in range(3)]
+    n = int(np.prod(shape))
+    F = np.full(n, 1e8)
+    k = draw(st.integers(1, min(7, n)))
+    where = draw(st.lists(st.integers(0, n - 1), min_size=k, max_size=k, unique=True))
+    for w in where:
+        F[w] = draw(st.sampled_from([0.0, 0.5, 1.0, 1.0, 2.5, 3.5, 4.9]))
+    return {'lattice': draw(gen.lattices(families=['cubic', 'orthorhombic', 'triclinic'], orients=['lower'])), 'F': F.reshape(shape).tolist(),
+            'threshold': draw(st.sampled_from([1e7, 1e7, 3.0])), 'diagonal': draw(st.sampled_from([True, True, False])),
+            'method': draw(st.sampled_from(METHODS)), 'start': draw(st.integers(0, 6)), 'stop': draw(st.integers(0, 6)),
+            'n_paths': draw(st.integers(1, 4)), 'min_diff': draw(st.sampled_from([0.0, 0.15, 0.15, 0.34, 0.5, 0.9])), 'defaults': draw(st.sampled_from([False, False, True])),
+            'route': draw(st.sampled_from(['vol-default', 'vol-graph', 'function-array', 'function-volume']))}
 
 
 @st.composite
@@ -332,6 +430,9 @@ SUBS = [
     Sub(name='two-routes', kind='hyp', run=run_optimal, strategy=two_route_cases,
         rule='periodic rings of 4-9 voxels without blocked voxels: exactly two routes between start and stop, so the five criteria disagree often',
         n={'quick': 150, 'thorough': 3000}, shards={'quick': 4, 'thorough': 16}),
+    Sub(name='n-paths', kind='hyp', run=run_npaths, strategy=npaths_cases,
+        rule='optimal_n_paths (FreeEnergyVolume method with default / explicit graph, module-level functions on an array / a volume): grids with sides 1-4 and at most 7 admissible voxels, 5 methods x 2 neighbourhoods, n_paths 1-4, min_diff 0-0.9: every returned path is a valid path between the requested voxels with the voxel energies, the first one is cost-minimal by own search; wrapped / fractional sites and total_length (sum of minimum-image step lengths) of each',
+        n={'quick': 120, 'thorough': 2500}, shards={'quick': 6, 'thorough': 16}),
     Sub(name='enum-tiny-grids', kind='enum', run=run_tiny, size=tiny_size, case_at=tiny_case, exhaustive=True,
         rule='complete enumeration: every grid of shape (2,2,1), (3,1,1) (quick) + (1,2,2), (2,1,3) (thorough) over energies {0, 1, 2.5, blocked} x every admissible start/stop pair x 5 methods x 2 neighbourhoods, and every percolation direction set with the first peak / all peaks (each call is one evaluation)',
         shards={'quick': 16, 'thorough': 16}),
